@@ -23,6 +23,9 @@ type kase struct {
 	Target       string `json:"target"`
 	Query        string `json:"query,omitempty"` // empty: self comparison
 	Self         bool   `json:"self,omitempty"`
+	// Before: queries filtered earlier, in pair mode, by the same Filter value (PALS runs one
+	// filter over both strands); the oracle is applied to the call for Query.
+	Before []string `json:"before,omitempty"`
 }
 
 type runner struct {
@@ -52,6 +55,15 @@ func (r *runner) hits(k kase) ([]filter.Hit, error) {
 		q = linear.NewSeq("q", alphabet.BytesToLetters([]byte(k.Query)), alphabet.DNA)
 	}
 	f := filter.New(ki, &filter.Params{WordSize: k.K, MinMatch: k.N, MaxError: k.E, TubeOffset: k.Off})
+	for _, b := range k.Before {
+		r.m.Clear()
+		if err := f.Filter(linear.NewSeq("b", alphabet.BytesToLetters([]byte(b)), alphabet.DNA), false, false, r.m); err != nil {
+			return nil, err
+		}
+		if err := r.m.Finalise(); err != nil {
+			return nil, err
+		}
+	}
 	r.m.Clear()
 	if err := f.Filter(q, k.Self, false, r.m); err != nil {
 		return nil, err
@@ -197,7 +209,7 @@ func deBruijn(alpha string, order int) string {
 
 func run(c *enum.Ctx) {
 	kmerindex.MinKmerLen = 2
-	c.Rule("parameters: every (k,n,e,offset) with k in {2,3,4}, n in k+2..8 (space A) / {9,12,16} with k=4 (space B), e in {0,1,2}, offset in max(e,1)..e+3 (space B also 8) and positive threshold n+1-k(e+1); space A: 6 fixed targets of length 8..12 x every query over {a,c,g,t} of length n..6 (thorough 7), plus self comparison of every sequence of length <=7 (thorough 8); space B (tube geometry): a 40-letter target over {a,c,g} with all 4-mers distinct, queries of length 100 (all 't' background, sharing no k-mer with the target) so that the circular tube array is recycled, a copy of target[t0:t0+n] planted at EVERY (t0,q0) with every substitution pattern of <=e positions (quick: exact, all single positions, pairs at 3 spacings); space D: k in {2,3}, n in {k,k+1,k+3}, e<=1, offset in {1,2,3,6} on targets of 17/30 and queries of 50/83 letters (query much longer than the target, threshold as low as 1) with a plant at every (t0,q0); space E: a plant at every (t0,q0) plus one stray copy of a word from the first e+1 target positions at every other query position (two-site geometry of the tube ring); space C: PALS-like parameters (k=6,n=30,e=2,offset=16; thorough also (8,50,4,36), (6,30,2,3), (5,20,1,8)) on targets of 90..200 and queries of 260..420 letters with a plant at every (t0,q0) (quick: thinned away from the ends) and substitutions at every third position; oracle: brute force over every pair of length-n windows with Hamming distance <=e (self: q0>t0): some pushed filter.Hit h must satisfy -h.Diagonal <= q0-t0 <= -h.Diagonal+offset+e-1 and [h.From,h.To) must meet [q0,q0+n); hits are read back through a real in-memory morass; non-trivial = runs with at least one epsilon-match")
+	c.Rule("parameters: every (k,n,e,offset) with k in {2,3,4}, n in k+2..8 (space A) / {9,12,16} with k=4 (space B), e in {0,1,2}, offset in max(e,1)..e+3 (space B also 8) and positive threshold n+1-k(e+1); space A: 6 fixed targets of length 8..12 x every query over {a,c,g,t} of length n..6 (thorough 7), plus self comparison of every sequence of length <=7 (thorough 8); space B (tube geometry): a 40-letter target over {a,c,g} with all 4-mers distinct, queries of length 100 (all 't' background, sharing no k-mer with the target) so that the circular tube array is recycled, a copy of target[t0:t0+n] planted at EVERY (t0,q0) with every substitution pattern of <=e positions (quick: exact, all single positions, pairs at 3 spacings); space F (reuse): the space-B plants filtered by a Filter value that has already filtered a query carrying a copy of the first k, k+1, n-1 or n letters of the same window 0, +3, -3, +offset positions away or in the same slot of the tube ring one or two turns later (thorough: at every position); space D: k in {2,3}, n in {k,k+1,k+3}, e<=1, offset in {1,2,3,6} on targets of 17/30 and queries of 50/83 letters (query much longer than the target, threshold as low as 1) with a plant at every (t0,q0); space E: a plant at every (t0,q0) plus one stray copy of a word from the first e+1 target positions at every other query position (two-site geometry of the tube ring); space C: PALS-like parameters (k=6,n=30,e=2,offset=16; thorough also (8,50,4,36), (6,30,2,3), (5,20,1,8)) on targets of 90..200 and queries of 260..420 letters with a plant at every (t0,q0) (quick: thinned away from the ends) and substitutions at every third position; oracle: brute force over every pair of length-n windows with Hamming distance <=e (self: q0>t0): some pushed filter.Hit h must satisfy -h.Diagonal <= q0-t0 <= -h.Diagonal+offset+e-1 and [h.From,h.To) must meet [q0,q0+n); hits are read back through a real in-memory morass; non-trivial = runs with at least one epsilon-match")
 	c.Assume("kmerindex.MinKmerLen is lowered to 2 by the harness so that small k keep the spaces small", "sequences are over a,c,g,t only")
 	work := os.Getenv("VERIF_WORK")
 	if work == "" {
@@ -325,6 +337,55 @@ func run(c *enum.Ctx) {
 				c.Eval()
 				if check(c, r, k) {
 					nt.AddH(enum.Hash64(enum.J(k)))
+				}
+			}
+		}
+		c.Merge(nt)
+	})
+	// space F: the same Filter value used for two queries in a row (a non-initial state): the first
+	// query carries a partial or full copy of the window near where the second query's plant will be,
+	// so that tubes are left below or above threshold in the slots the second call uses first
+	enum.Parallel(len(jobs), func(ji int) {
+		j := jobs[ji]
+		p := j.p
+		if c.Quick && (j.t0%3 != 0 || p.Off == 8) {
+			return
+		}
+		r := newRunner(filepath.Join(work))
+		defer r.close()
+		nt := enum.NontrivialSet{}
+		bg := strings.Repeat("t", qlen)
+		win := target[j.t0 : j.t0+p.N]
+		for q0 := 0; q0+p.N <= qlen; q0++ {
+			if c.Quick && q0 > 24 && q0 < qlen-p.N-12 && q0%5 != 0 {
+				continue
+			}
+			final := bg[:q0] + win + bg[q0+p.N:]
+			// distances: nearby, and those that put the earlier copy into the same slot of the tube
+			// ring (a multiple of ring size x tube offset further down the query), one tube either side;
+			// thorough: every position
+			ring := ((len(target)+p.Off+p.E-1)/p.Off + 1) * p.Off
+			ds := []int{0, 3, -3, p.Off}
+			for m := 1; m*ring < qlen; m++ {
+				ds = append(ds, m*ring-p.Off, m*ring, m*ring+p.Off, m*ring+1, m*ring-1)
+			}
+			if !c.Quick {
+				ds = ds[:0]
+				for d := -q0; q0+d < qlen; d++ {
+					ds = append(ds, d)
+				}
+			}
+			for _, l := range []int{p.K, p.K + 1, p.N - 1, p.N} {
+				for _, d := range ds {
+					q1 := q0 + d
+					if q1 < 0 || q1+l > qlen {
+						continue
+					}
+					k := kase{K: p.K, N: p.N, E: p.E, Off: p.Off, Target: target, Query: final, Before: []string{bg[:q1] + win[:l] + bg[q1+l:]}}
+					c.Eval()
+					if check(c, r, k) {
+						nt.AddH(enum.Hash64(enum.J(k)))
+					}
 				}
 			}
 		}
